@@ -169,6 +169,25 @@ LIST_TEMPLATES = [
 	'def {n}({h}) -> int:\n\tys = [x {0} a for x in xs]\n\tt = 0\n\tfor y in ys:\n\t\tt += y\n\treturn t\n',
 	'def {n}({h}) -> int:\n\tys = [x {0} a for x in xs if x {1} b]\n\treturn len(ys) + (ys[0] if len(ys) > 0 else 0)\n',
 ]
+# classes: {N} is the capitalised function name (class names must be unique inside a batch)
+CLASS_TEMPLATES = [
+	# constructor, pure method, mutating method, field read
+	'class {N}K:\n\tf: int\n\tg: int\n\n\tdef __init__(self, p: int, q: int) -> None:\n\t\tself.f = p\n\t\tself.g = q {0} 1\n\n\tdef m(self, r: int) -> int:\n\t\treturn self.f {0} r\n\n\tdef bump(self, r: int) -> None:\n\t\tself.g = self.g + r\n\t\tif r {1} 0:\n\t\t\tself.f = 0\n\ndef {n}({h}) -> int:\n\to = {N}K(a, b)\n\to.bump(d)\n\tt = o.m(d)\n\treturn t + o.g\n',
+	# a field computed from another field, in declaration order
+	'class {N}K:\n\tf: int\n\tg: int\n\n\tdef __init__(self, p: int, q: int) -> None:\n\t\tself.f = p {0} 1\n\t\tself.g = self.f {0} q\n\n\tdef m(self) -> int:\n\t\treturn self.g - self.f\n\ndef {n}({h}) -> int:\n\to = {N}K(a, b)\n\treturn o.m() + o.g\n',
+	# inheritance: base constructor call, overriding method, inherited method
+	'class {N}K:\n\tf: int\n\n\tdef __init__(self, p: int) -> None:\n\t\tself.f = p\n\n\tdef m(self, r: int) -> int:\n\t\treturn self.f {0} r\n\n\tdef k(self) -> int:\n\t\treturn self.f + 1\n\nclass {N}L({N}K):\n\tdef __init__(self, p: int, q: int) -> None:\n\t\tsuper().__init__(p {0} q)\n\n\tdef m(self, r: int) -> int:\n\t\treturn self.f - r\n\ndef {n}({h}) -> int:\n\to = {N}K(a)\n\tl = {N}L(b, d)\n\treturn o.m(d) + l.m(d) + l.k()\n',
+	# a bool field, a method with a default argument, a method calling another method, field stores from outside
+	'class {N}K:\n\tf: int\n\ton: bool\n\n\tdef __init__(self, p: int, on: bool) -> None:\n\t\tself.f = p\n\t\tself.on = on\n\n\tdef m(self, r: int = 2) -> int:\n\t\tif self.on:\n\t\t\treturn self.f {0} r\n\t\treturn r\n\n\tdef n(self) -> int:\n\t\treturn self.m() + self.m(3)\n\ndef {n}({h}) -> int:\n\to = {N}K(a, c)\n\tx = o.n()\n\to.f = b\n\to.on = a {1} d\n\treturn x + o.m(d)\n',
+	# a mutating method called in a loop, two objects
+	'class {N}K:\n\tt: int\n\n\tdef __init__(self, p: int) -> None:\n\t\tself.t = p\n\n\tdef add(self, r: int) -> None:\n\t\tif r {1} 0:\n\t\t\tself.t = self.t {0} r\n\ndef {n}({h}) -> int:\n\to = {N}K(a)\n\tu = {N}K(b)\n\tfor i in range(3):\n\t\to.add(i + d)\n\t\tu.add(i)\n\treturn o.t - u.t\n',
+	# constructor that updates a field after storing it, then derives a second field from it
+	'class {N}K:\n\tf: int\n\tg: int\n\n\tdef __init__(self, p: int, q: int) -> None:\n\t\tself.f = p\n\t\tself.f += 1\n\t\tself.g = self.f {0} q\n\ndef {n}({h}) -> int:\n\to = {N}K(a, b)\n\treturn o.g\n',
+	# a field declared after the field that is derived from it
+	'class {N}K:\n\tg: int\n\tf: int\n\n\tdef __init__(self, p: int, q: int) -> None:\n\t\tself.f = p\n\t\tself.g = self.f {0} q\n\ndef {n}({h}) -> int:\n\to = {N}K(a, b)\n\treturn o.g + o.f\n',
+	# a base-class method that calls an overridden method
+	'class {N}K:\n\tf: int\n\n\tdef __init__(self, p: int) -> None:\n\t\tself.f = p\n\n\tdef m(self) -> int:\n\t\treturn self.f\n\n\tdef twice(self) -> int:\n\t\treturn self.m() {0} self.m()\n\nclass {N}L({N}K):\n\tdef __init__(self, p: int) -> None:\n\t\tsuper().__init__(p)\n\n\tdef m(self) -> int:\n\t\treturn self.f + 1\n\ndef {n}({h}) -> int:\n\tl = {N}L(a)\n\treturn l.twice()\n',
+]
 AUG = ['+', '-', '*', '%', '<<', '>>', '&', '|', '^']
 
 
@@ -187,6 +206,16 @@ def statement_shapes(tier: str, seed: int) -> list:
 			if src not in seen:
 				seen.add(src)
 				out.append(('statement' if ti < len(STATEMENT_TEMPLATES) else 'call', src))
+	ccombos = list(itertools.product(['+', '-', '&', '|', '^'], CMP))
+	for tmpl in CLASS_TEMPLATES:
+		seen = set()
+		for c in rnd.sample(ccombos, 30 if tier == 'thorough' else 4):
+			src = tmpl.replace('{h}', HEAD)
+			for i, v in enumerate(c):
+				src = src.replace('{%d}' % i, v)
+			if src not in seen:
+				seen.add(src)
+				out.append(('class', src))
 	lcombos = list(itertools.product(['+', '-', '&', '|', '^'], CMP, CMP))  # no products of two symbolic values inside unrolled loops (solver cost)
 	for tmpl in LIST_TEMPLATES:
 		seen = set()
@@ -215,5 +244,5 @@ def programs(tier: str, seed: int) -> list:
 		out.append((name, cat, expr_function(name, e)))
 	for i, (cat, src) in enumerate(statement_shapes(tier, seed)):
 		name = f's{i}'
-		out.append((name, cat, src.replace('{n}', name)))
+		out.append((name, cat, src.replace('{n}', name).replace('{N}', name.capitalize())))
 	return out
